@@ -14,7 +14,7 @@ def cell(t, n):
 
 def main():
     rows = []
-    for sid in sorted(os.listdir(os.path.join(VERIF, 'seeded'))):
+    for sid in sorted(d for d in os.listdir(os.path.join(VERIF, 'seeded')) if os.path.isfile(os.path.join(VERIF, 'seeded', d, 'meta.json'))):
         m = json.load(open(os.path.join(VERIF, 'seeded', sid, 'meta.json')))
         d = m.get('detected', {})
         det = f"`{d.get('check', '?')}` exit {d.get('exit', '?')}" if 'check' in d else cell(d.get('error', 'not run'), 60)
